@@ -342,7 +342,7 @@ fn describe(prop: &str) -> (&'static str, &'static str, &'static str) {
             "the clock is capped (blocks per configuration in its name) and weights are finite, so every configuration runs to a FIXPOINT: all histories over the alphabet within the block bound, any number of updates per block",
         ),
         "C10" => (
-            "Bond with funds {1,2,3 of the stake denom, another denom, two denoms, none}; cw20 Send{Bond} through the configured real cw20-base token and through a foreign one; Receive sent directly by a user (for himself / for another user); Unbond {0,1,2,3, stake+1}; Claim; a donation to the contract; AdvanceBlock (+1 block, +5 s; in the sub-second configuration blocks start at T0+0.7 s and advance by 9.5 s or 0.5 s). Configurations: native / cw20 stake token, tokens_per_weight {1,2,3}, min_bond {0,1,2,5}, unbonding Height(2) / Time(10 s), two stakers with finite funds and a donor. Edge configurations: bonds of 2^64*tpw-1, 2^64*tpw, 2^64*tpw+3, 2^128-1, 2^128-2.",
+            "Bond with funds {1,2,3 of the stake denom, another denom, a denom equal to the stake denom up to letter case, two denoms, none}; cw20 Send{Bond} through the configured real cw20-base token and through a foreign one; Receive sent directly by a user (for himself / for another user); Unbond {0,1,2,3, stake+1}; Claim; a donation to the contract; AdvanceBlock (+1 block, +5 s; in the sub-second configuration blocks start at T0+0.7 s and advance by 9.5 s or 0.5 s). Configurations: native / cw20 stake token, tokens_per_weight {1,2,3}, min_bond {0,1,2,5}, unbonding Height(2) / Time(10 s), two stakers with finite funds and a donor. Edge configurations: bonds of 2^64*tpw-1, 2^64*tpw, 2^64*tpw+3, 2^128-1, 2^128-2.",
             "reference ledger {stake[u], claims[u]=[(amount, unbond block height / exact block time in nanoseconds + period)]} stepped on accepted calls. State: real holdings of the contract (kernel bank / real cw20 balance) >= sum stakes + sum unreleased claims, == when nobody donated; Staked and Claims queries == ledger; Member{u} == Some(floor(stake/tokens_per_weight)) compared in 128 bits iff stake >= max(min_bond,1) else None; TotalWeight == sum of listed weights; listing == Member queries. Transition: accepted bond with anything but exactly the configured token, foreign-token Send{Bond} or user-sent Receive accepted => violation; Unbond above the stake accepted => violation; an accepted Claim moves exactly the sum of the caller's claims whose release point is reached (computed by the reference) from the contract to the caller and removes them, nobody else's balance moves; every other accepted call moves exactly its own amount; a refused call and a block advance change nothing.",
             "closed configurations (finite funds, capped clock, zero-unbond offered once per pending zero claim) run to FIXPOINT; edge configurations to the stated depth",
         ),
